@@ -114,6 +114,35 @@ claim('C14',
       'Reload histories are in C13. One defect found and fixed (L0vv aliasing).',
       'DESIGN.md 3/C14, 2.3')
 
+claim('C32',
+      'Bounded symbolic verification: on every occupation of the listed supercells (mobile and spectator occupations are symbolic 0/1 '
+      'integers case-split by the solver) and for ALL cluster values (symbolic reals), the real evalcluster, expandcluster_matrices, '
+      'clusterevaluator and MonteCarloSampler.E give the same energy as a brute-force sum over clusters, compared as linear forms by z3.',
+      'Supercells/cluster sets enumerated (4-8 mobile sites, spectator sublattice, vacancy + vacancy clusters, thin cells where cluster '
+      'sites wrap); occupations are solver-driven enumeration (2^n paths); brute force uses the supercell\'s own site indexing.',
+      'DESIGN.md 3/C32')
+
+claim('C33',
+      'Bounded symbolic verification by inductive step: from ANY occupation (solver case split) with counters/sets built from their '
+      'definition, one real update/deltaE_trial with symbolic site lists; post-state equals the definition on the new occupation and a '
+      'freshly started sampler, start() produces the definition, deltaE_trial == E_after - E_before for all symbolic cluster/KRA/TS values.',
+      'Supercells enumerated; site lists <=2+2, distinct, never the vacancy (documented precondition); values symbolic reals.',
+      'DESIGN.md 3/C33, 2.2')
+
+claim('C34',
+      'Bounded symbolic verification: per occupation path with symbolic cluster, KRA and TS-cluster values, for every transition the real '
+      'sampler reports the real update is applied; the reverse is then reported exactly once with -dx and Q_fwd - Q_rev == E_final - '
+      'E_initial as linear forms (z3, all values); with a vacancy the final state is a sampler on the supercell with the vacancy moved.',
+      'Supercells / networks enumerated (SC, HCP two sites per cell, B2 with spectators, thin FCC/SC cells with vacancy).',
+      'DESIGN.md 3/C34')
+
+claim('C35',
+      'Bounded symbolic verification: the uncompiled bodies of the jitclass methods (built by MonteCarloSampler_param) run on z3 terms next '
+      'to the reference sampler on every occupation path with symbolic values: start, E, deltaE_trial, update, transitions (forbidden => '
+      'inf) agree, and MCmoves with symbolic choices and symbolic kT*log(u) (batch <=3) equals move-by-move Metropolis.',
+      'numba compilation trusted (counterexamples replayed on the compiled class). One defect found and fixed (np.Inf).',
+      'DESIGN.md 3/C35')
+
 na('C01', 'exact oracle is an infinite-state pair Markov chain reached through Brillouin-zone quadrature, LAPACK and hyp1f1/expi; '
           'agreement only to integration accuracy: no algebraic statement a solver can decide (DESIGN 5)')
 na('C06', 'identities hold only for the true lattice Green function of the omega0 network (numerical k-space integration); '
